@@ -19,6 +19,13 @@ CHECKS = {
         "Trusts the sweep hook (re-applies bindgen's own rules to a clone) and the syn inventory; schedules are emulated by permuting the initial work-list; generated graphs are bounded to <=9 top-level declarations.",
         "DESIGN.md section 2 / C07",
     ),
+    "C13": (
+        "proptest sequences of builder calls + exhaustive singles/boolean pairs; round-trip (b1 -> flags -> b2 -> flags') and differential generate(b1) vs generate(b2), flag vs method",
+        "exploration",
+        "Each configuration is built from a table of all CLI-expressible Builder methods (checked against options/mod.rs at run time), converted to flags, parsed back in an isolated worker (clap's exit is an outcome), converted again and both builders generate bindings for a feature-triggering C or C++ header: flag lists must be equal as lists and bindings byte-identical; every table row's documented flag must equal its method in flags and bindings. Singles are exhaustive over enumerated values; pairs and random sequences explore interactions.",
+        "Two fixed input headers; string arguments come from fixed pools (names, regexes, awkward strings, leading dashes); methods that cannot be expressed on the CLI by design are excluded and listed in evidence.",
+        "DESIGN.md section 2 / C13",
+    ),
     "C14": (
         "exhaustive enumeration of (target spelling, edition) x trigger headers against an independent feature table, plus proptest spot pairs for shrinking",
         "exploration",
